@@ -155,27 +155,28 @@ Theorem reset_push : forall v, ResetOk push v.
 Proof.
   induction v using Value_ind'; unfold ResetOk in *.
   - reset_leaf. - reset_leaf. - reset_leaf. - reset_leaf. - reset_leaf. - reset_leaf.
-  - intros b b' H. destruct b; cbn [push prim_value text_of_scalar bind] in H; try discriminate.
+  - intros b b' H. destruct b; cbn [push text_of_scalar bind] in H; try discriminate;
+      [rewrite prim_value_nonscalar in H by exact I; discriminate|].
     eapply (reset_list_gen push_scalar); [|exact H]. apply Forall_forall. intros x _. apply reset_push_scalar.
   - intros b b' H. cbn [push] in H. apply reset_push_none, H.
   - intros b b' H. cbn [push] in H. apply IHv, H.
   - intros b b' H. cbn [push] in H. apply reset_push_none, H.
   - intros b b' H. cbn [push] in H. apply reset_push_none, H.
   - intros b b' H. cbn [push] in H. apply IHv, H.
-  - intros b b' H0. destruct b; cbn [push] in H0; try discriminate;
+  - intros b b' H0. destruct b; cbn [push] in H0; try discriminate; try (rewrite prim_value_nonscalar in H0 by exact I; discriminate);
       first [eapply reset_list; eassumption | revert H0; generalize b'; reset_leaf].
-  - intros b b' H0. destruct b; cbn [push] in H0; try discriminate;
+  - intros b b' H0. destruct b; cbn [push] in H0; try discriminate; try (rewrite prim_value_nonscalar in H0 by exact I; discriminate);
       first [eapply reset_list; eassumption
             | (eapply (reset_record _ _ _ _ (tuple_loop push l 0)); [|exact H0]; intros st st'; apply tuple_loop_reset, H)
             | revert H0; generalize b'; reset_leaf].
-  - intros b b' H0. destruct b; cbn [push] in H0; try discriminate;
+  - intros b b' H0. destruct b; cbn [push] in H0; try discriminate; try (rewrite prim_value_nonscalar in H0 by exact I; discriminate);
       first [eapply reset_list; eassumption
             | (eapply (reset_record _ _ _ _ (tuple_loop push l 0)); [|exact H0]; intros st st'; apply tuple_loop_reset, H)
             | revert H0; generalize b'; reset_leaf].
-  - intros b b' H0. destruct b; cbn [push] in H0; try discriminate;
+  - intros b b' H0. destruct b; cbn [push] in H0; try discriminate; try (rewrite prim_value_nonscalar in H0 by exact I; discriminate);
       first [(eapply (reset_record _ _ _ _ (map_loop push kvs)); [|exact H0]; intros st st'; apply map_loop_reset, H)
             | revert H0; generalize b'; reset_leaf].
-  - intros b b' H0. destruct b; cbn [push] in H0; try discriminate;
+  - intros b b' H0. destruct b; cbn [push] in H0; try discriminate; try (rewrite prim_value_nonscalar in H0 by exact I; discriminate);
       first [(eapply (reset_record _ _ _ _ (struct_loop push fs)); [|exact H0]; intros st st'; apply struct_loop_reset, H)
             | revert H0; generalize b'; reset_leaf].
   - reset_leaf. - reset_leaf. - reset_leaf. - reset_leaf.
@@ -190,7 +191,7 @@ Proof.
   intros f. induction f as [name dt nullable IH] using Field_ind'. intros b0.
   destruct dt as [| |k|k|k|n|k cf|n cf|fs|en kf vf|key val|ufs]; try (cbn [build]; discriminate).
   - cbn [build]. intros H; injection H as <-. cbn [reset]. rewrite reset_validity_new. reflexivity.
-  - cbn [build]. destruct k; try discriminate. intros H; injection H as <-. cbn [reset]. rewrite reset_validity_new. reflexivity.
+  - cbn [build]. destruct (prim_built k); [|discriminate]. intros H; injection H as <-. cbn [reset]. rewrite reset_validity_new. reflexivity.
   - cbn [build]. destruct k; try discriminate; intros H; injection H as <-; cbn [reset]; rewrite reset_validity_new; reflexivity.
   - cbn [build]. cbn [FieldIH] in IH. destruct (build cf) as [cb|] eqn:Ec; [|discriminate]. intros H; injection H as <-.
     cbn [reset]. rewrite reset_validity_new, (IH cb eq_refl). reflexivity.
